@@ -215,9 +215,15 @@ func contract_consumeBytesSlice(b []byte, p pointer, wtyp protowire.Type, f *cod
 // (DiscardUnknown not set) and the message has such a cell; what is appended is the re-encoded tag of
 // the field just parsed followed by the n bytes (within the buffer) that ConsumeFieldValue measured for its value.
 //
-// @ props C06 C09 C14
+// Required fields (C10): the local "initialized" only ever goes from true to false (a partial child,
+// a missing required field), and the message is reported initialized only if it is still true at
+// the end.
+//
+// @ props C06 C09 C10 C14
 // @ mode int
 // @ guard-slice-stores
+// @ monotone-false initialized
+// @ site return out, nil: imp(out.initialized, initialized)
 // @ callsite mi.mutableUnknownBytes: !opts.DiscardUnknown() && mi.unknownOffset.IsValid()
 // @ callsite protowire.AppendTag: arg[protowire.Number](1) == num && arg[protowire.Type](2) == wtyp
 // @ callsite append: 0 <= n && n <= len(b)
@@ -438,9 +444,11 @@ func contract_MessageInfo_skipField(mi *MessageInfo, b []byte, f *coderFieldInfo
 // with Start <= End (positions measured from the start of the buffer), for buffers below 4 GiB
 // (the index stores 32-bit positions).
 //
-// @ props C17 C06
+// @ props C17 C06 C10
 // @ mode int
 // @ nopanic
+// @ monotone-false initialized
+// @ site return out, nil: imp(out.initialized, initialized)
 // @ loop 1 invariant suffixOf(b, old(b)) || (lazyDecode && len(b) <= start)
 // @ loop 1 invariant 0 <= pos && pos == start-len(b) && pos <= start && start == len(old(b))
 // @ site b = b[n:]: 0 <= n && n <= len(b)
@@ -472,4 +480,33 @@ func specKeyLess(x, y reflect.Value) bool {
 		return x.String() < y.String()
 	}
 	return false
+}
+
+// ---------------------------------------------------------------- map entries: the inner tag loops (C06)
+
+// Table invariant of valueCoderFuncs.unmarshal (map keys and scalar map values).
+func fieldcontract_valueCoderFuncs_unmarshal(b []byte, v protoreflect.Value, num protowire.Number, wtyp protowire.Type, opts unmarshalOptions) (r protoreflect.Value, out unmarshalOutput, err error) {
+	ensures(imp(err == nil, 0 <= out.n && out.n <= len(b)))
+	return
+}
+
+// The tag loop over a map entry: every step stays inside the entry and only field numbers in the
+// valid range (1 .. 2^29-1, as everywhere else in the decoder and in the validator) are accepted.
+//
+// @ props C06
+// @ mode int
+// @ nopanic
+// @ site b = b[n:]: 0 <= n && n <= len(b) && 1 <= num && num <= protowire.MaxValidNumber
+func contract_consumeMap(b []byte, mapv reflect.Value, wtyp protowire.Type, mapi *mapInfo, f *coderFieldInfo, opts unmarshalOptions) (out unmarshalOutput, err error) {
+	modifiesAll()
+	return
+}
+
+// @ props C06
+// @ mode int
+// @ nopanic
+// @ site b = b[n:]: 0 <= n && n <= len(b) && 1 <= num && num <= protowire.MaxValidNumber
+func contract_consumeMapOfMessage(b []byte, mapv reflect.Value, wtyp protowire.Type, mapi *mapInfo, f *coderFieldInfo, opts unmarshalOptions) (out unmarshalOutput, err error) {
+	modifiesAll()
+	return
 }
